@@ -59,6 +59,7 @@ type kmModel struct {
 	hookFails bool // the media hook of this run exits non-zero (the UI then shows a problem line)
 	hookSlow  bool // ... after a few seconds, so that keys can be pressed while it runs
 	spawned   bool // the last key started the hook
+	hookFocus bool // every third action opens something and types on while the hook ends
 	spawnLink string // ... for this link ("" = whichever of the item's pictures/media the program prefers)
 }
 
@@ -487,11 +488,18 @@ func isSubsequence(want, have []string) bool {
 func scenC07(r *Run, judged bool) {
 	t := r.W
 	spine := t.Chance(1, 3)
-	tn := buildTown(r, TownOpts{Paged: t.Chance(1, 2), Markdown: true, Spine: spine})
+	paged := t.Chance(1, 2)
+	if r.Job.Prop == "C08" {
+		paged = true // run from C08's plan: overlapping loads of cursor-paged collections
+	}
+	tn := buildTown(r, TownOpts{Paged: paged, Markdown: true, Spine: spine, QueryPages: paged && (r.Job.Prop == "C08" || t.Chance(1, 2))})
 	r.S.PanicProp = "C07"
 	w, h := 70+t.Draw(60), 30+t.Draw(40)
 	u := newUISession(r, w, h)
 	m := &kmModel{tn: tn, feeds: r.Job.Cfg.Feeds, mode: "normal", idx: -1}
+	if r.Job.Prop == "C08" {
+		m.hookFocus = true // run from C08's plan: sessions about keys competing with the end of the hook
+	}
 	switch t.Weighted(4, 2, 2, 2) {
 	case 1:
 		m.hookFails = true
@@ -499,6 +507,9 @@ func scenC07(r *Run, judged bool) {
 		m.hookSlow = true
 	case 3:
 		m.hookFails, m.hookSlow = true, true
+	}
+	if m.hookFocus {
+		m.hookSlow = true
 	}
 	u.ExecOutcome = func(rec simexec.Record) simexec.Outcome {
 		var o simexec.Outcome
@@ -552,7 +563,16 @@ func scenC07(r *Run, judged bool) {
 	}
 	// run from C09's plan, the same sessions judge what is listed around the highlighted item
 	// (C09 at the level of the screen); everything else is C07's.
+	overlapped := false // this session has had keys competing with loads or with the end of a hook
 	viol := func(kind, detail string) {
+		if r.Job.Prop == "C08" {
+			// run from C08's plan: once keys have competed with background activity, a state that no
+			// order of the competing steps explains is a lost or torn update
+			if overlapped {
+				r.Violate("C08", "atomicity", kind, detail)
+			}
+			return
+		}
 		if r.Job.Prop == "C20" {
 			// run from C20's plan, the same sessions judge which link a number hands to the hook
 			if strings.HasPrefix(kind, "hook-") {
@@ -682,9 +702,28 @@ func scenC07(r *Run, judged bool) {
 		return
 	}
 	nActions := 4 + t.Draw(30)
+	// now and then a very long session: hundreds of pages opened one after the other (the same
+	// few items over and over, nothing new to fetch), then all the way back through the history
+	var marathon []byte
+	if judged && t.Chance(1, 60) {
+		n := 250 + t.Draw(80)
+		for k := 0; k < n; k++ {
+			marathon = append(marathon, ' ')
+		}
+		for k := 0; k < n+3; k++ {
+			marathon = append(marathon, 'h')
+		}
+		for k := 0; k < 5+t.Draw(10); k++ {
+			marathon = append(marathon, 'l')
+		}
+		nActions += len(marathon)
+		r.S.Probe("c07_marathon_session")
+	}
 	for i := 0; i < nActions; i++ {
 		var act []byte
-		if judged {
+		if len(marathon) > 0 && !m.lost && m.mode == "normal" {
+			act, marathon = marathon[:1], marathon[1:]
+		} else if judged {
 			act = g.nextJudged(m)
 		} else {
 			act = g.nextMash()
@@ -744,6 +783,15 @@ func scenC07(r *Run, judged bool) {
 				// the hook is still running: the user goes on typing (a command, a number) without
 				// waiting for it; when it ends (even with a failure) that input must not be disturbed
 				r.Drive(func() bool { return u.Returned(ki) }, hugeHorizon, stepCap)
+				if t.Chance(3, 4) {
+					// ... and the next key is pressed at the very instant the hook process ends: the end
+					// of the hook and the key then compete for the interface
+					if due, ok := r.S.NextTimerDue(); ok && due > r.S.Now() {
+						r.Drive(func() bool { return false }, due, stepCap)
+						r.S.Probe("key_pressed_at_the_instant_the_hook_ends")
+						overlapped = true
+					}
+				}
 				r.S.Probe("typing_while_hook_runs")
 				m.footer = "" // the failure of a hook the user has left behind is not reported
 				continue
@@ -753,6 +801,7 @@ func scenC07(r *Run, judged bool) {
 				// handled, while the surroundings of the new page are still being loaded
 				r.Drive(func() bool { return u.Returned(ki) }, hugeHorizon, stepCap)
 				r.S.Probe("burst_keys_without_settling")
+				overlapped = true
 				continue
 			}
 			if !r.Settle(stepCap) {
@@ -838,6 +887,20 @@ func (g *keyGen) nextJudged(m *kmModel) []byte {
 	if it, ok := m.current(); ok && m.mode == "normal" && !m.lost && len(linksOf(it)) >= 8 && t.Chance(1, 3) {
 		k := 8 + t.Draw(len(linksOf(it))-6)
 		return []byte(fmt.Sprintf([]string{"%d", "0%d", "0%d", "00%d"}[t.Draw(4)], k) + []string{".", "\r"}[t.Draw(2)])
+	}
+	if m.hookSlow && m.mode == "normal" && !m.lost && (t.Chance(1, 6) || (m.hookFocus && t.Chance(1, 3))) {
+		// the hook of this session takes seconds: open something and go on typing meanwhile
+		first := []string{"o", "p", "b", "1\r", "2\r"}[t.Draw(5)]
+		then := []string{":op", ":feed x", "12", "3", ":\x7f"}[t.Draw(5)]
+		return []byte(first + then)
+	}
+	if m.hookFocus && m.mode == "normal" && !m.lost && t.Chance(1, 3) {
+		// a burst: open a page and move through the history before its surroundings have loaded
+		b := []byte{" cra"[t.Weighted(5, 2, 1, 1)]}
+		for k := 1 + t.Draw(3); k > 0; k-- {
+			b = append(b, "hhlg "[t.Draw(5)])
+		}
+		return b
 	}
 	if m.mode == "selection" && !m.lost {
 		// a number is being typed: finish it with one of the keys the keymap defines for that
